@@ -33,6 +33,7 @@ ASSUMPTIONS = [
     "seeks only to positions >= 0; read(None) not generated",
 ]
 SHARDS = {"quick": 8, "thorough": 16}
+NEEDS = {"deps"}          # atheris (coverage-guided campaign) comes from the offline wheelhouse
 
 SIZES = [0, 1, 2, 100, 8190, 8191, 8192, 8193, 8194, 16383, 16384, 16385, 16386, 3 * 8192 - 1, 3 * 8192, 3 * 8192 + 1]
 
@@ -274,5 +275,36 @@ def _run_writer(spec):
     return {"nontrivial": nonempty >= 2 and len(data) > 8192, "classes": ["writer", "cls=" + spec["cls"]]}
 
 
+def _atheris_campaign(ctx, seconds, with_corpus):
+    """Coverage-guided campaign (atheris/libFuzzer, joblib.compressor instrumented) over the same case space and oracle."""
+    import json
+    import subprocess
+    import sys
+
+    out = os.path.join(ctx.scratch, "fuzz-out.json")
+    corpus = os.path.join(ctx.scratch, "corpus")
+    cmd = [sys.executable, "-m", "vf.fuzz_c13", out, str(seconds), str(ctx.seed + ctx.shard)] + ([corpus] if with_corpus else [])
+    try:
+        subprocess.run(cmd, stdout=subprocess.DEVNULL, stderr=subprocess.DEVNULL, timeout=seconds + 120)
+    except subprocess.TimeoutExpired:
+        ctx.stats.notes.append("atheris campaign timed out")
+        return
+    try:
+        with open(out) as f:
+            res = json.load(f)
+    except (OSError, ValueError):
+        ctx.stats.notes.append("atheris campaign produced no result (atheris not importable?)")
+        return
+    ctx.stats.extra["n_atheris_runs"] = ctx.stats.extra.get("n_atheris_runs", 0) + res["runs"]
+    ctx.stats.count("atheris-campaign-%s-corpus" % ("seeded" if with_corpus else "empty"))
+    if res.get("failure"):
+        # re-check through the plain path so that the failure is recorded (and replayable) like any other
+        ctx.run_one(res["failure"])
+
+
 def shard(ctx):
     ctx.hyp_run(strategy(), max_examples=ctx.pick(1500, 12000))
+    if ctx.shard == 0:
+        _atheris_campaign(ctx, ctx.pick(12, 150), with_corpus=True)
+    elif ctx.shard == 1:
+        _atheris_campaign(ctx, ctx.pick(12, 150), with_corpus=False)
